@@ -38,6 +38,13 @@ LINE = re.compile(
     r"emitted=stderr:(?P<se>\S+),file:(?P<fi>\S+) replay=(?P<replay>\S+) len=(?P<len>\S+)$"
 )
 FAILING = {"taskPanic", "deadlock", "stepBoundFail"}
+# portfolio bodies of vh_c12: number of failing members (each failing member is a task panic on a fresh OS thread)
+PORTFOLIO_FAILING_MEMBERS = {"pf_pass": 0, "pf_fail1": 1, "pf_fail2": 2, "pfn_fail1": 1}
+
+
+def item_body(item):
+    b = item.split(":", 1)[1] if ":" in item else item
+    return b.split("@", 1)[0].split("+", 1)[0]
 
 
 def parse(path):
@@ -71,7 +78,11 @@ def num(s):
         return None
 
 
-def expected_raised_ok(kind, raised):
+def expected_raised_ok(kind, raised, nfail=0):
+    if kind == "portfolio":
+        # "a portfolio run fails exactly when one of its members does"; with stop_on_first_failure the
+        # member's own payload is re-raised
+        return (raised == "payload") if nfail > 0 else (raised == "none")
     if kind == "taskPanic":
         return raised == "payload"
     if kind == "deadlock":
@@ -93,25 +104,33 @@ def oracle(groups):
             kind, persist = r["kind"], r["persist"]
             se, fi, ln = num(r["se"]), num(r["fi"]), num(r["len"])
             failing = kind in FAILING
+            nfail = 0
+            if kind == "portfolio":
+                nfail = PORTFOLIO_FAILING_MEMBERS.get(item_body(items[i]) if i < len(items) else "", 0)
+                failing = nfail > 0
+                kind_for_f5 = "taskPanic"
+            else:
+                kind_for_f5 = kind
+            mult = nfail if kind == "portfolio" else 1
             v = []
-            if not expected_raised_ok(kind, r["raised"]):
+            if not expected_raised_ok(kind, r["raised"], nfail):
                 v.append(("raised=%s-for-%s" % (r["raised"], kind), "UNCLASSIFIED"))
             if se is None or fi is None:
                 v.append(("emissions-unknown", "UNCLASSIFIED"))
             else:
-                want_se = 1 if (failing and persist == "print") else 0
-                want_fi = 1 if (failing and persist == "file") else 0
+                want_se = mult if (failing and persist == "print") else 0
+                want_fi = mult if (failing and persist == "file") else 0
                 if (se, fi) != (want_se, want_fi):
                     got = "stderr:%d,file:%d" % (se, fi)
                     if not failing:
                         v.append(("emitted-by-non-failing-run(%s)" % got, "UNCLASSIFIED"))
                     elif persist == "none":
-                        cls = "F5" if (kind == "taskPanic" and i > 0 and first_persist != "none") else "UNCLASSIFIED"
+                        cls = "F5" if (kind_for_f5 == "taskPanic" and i > 0 and first_persist != "none") else "UNCLASSIFIED"
                         v.append(("emitted-although-persistence-disabled(%s)" % got, cls))
                     elif se + fi == 0:
-                        if i > 0 and last_len.get(t) == ln:
+                        if i > 0 and ln is not None and last_len.get(t) == ln:
                             cls = "F6"
-                        elif kind == "taskPanic" and i > 0 and first_persist == "none":
+                        elif kind_for_f5 == "taskPanic" and i > 0 and first_persist == "none":
                             cls = "F5"
                         else:
                             cls = "UNCLASSIFIED"
@@ -119,7 +138,7 @@ def oracle(groups):
                     elif (se > 0 and want_se == 0) or (fi > 0 and want_fi == 0):
                         cls = (
                             "F5"
-                            if (kind == "taskPanic" and i > 0 and first_persist not in (persist, "none"))
+                            if (kind_for_f5 == "taskPanic" and i > 0 and first_persist not in (persist, "none"))
                             else "UNCLASSIFIED"
                         )
                         v.append(("emitted-on-wrong-channel(%s)" % got, cls))
